@@ -23,6 +23,25 @@ READ = "_ZNSi4readEPcl"
 IOW = "_ZN5verif8io_write"
 IOR = "_ZN5verif7io_read"
 THROW = "__cxa_throw"
+ABORTS = ("abort", "_ZSt9terminatev", "__assert_fail", "exit", "_exit", "quick_exit", "__clang_call_terminate", "__cxa_pure_virtual", "__stack_chk_fail", "_ZSt10unexpectedv")
+
+
+def normalise_throws(s, module):
+    """A call to a [[noreturn]] helper of the library whose body (dumped with the harness) raises an exception and calls
+    nothing of the abort family is a throw site like `throw` itself (error reporting moved into a helper function)."""
+    for c in s.calls:
+        if c.name in (THROW,) + ABORTS or "noreturn" not in (c.inst.get("cattrs") or []):
+            continue
+        fj = (module or {}).get("functions", {}).get(c.name)
+        if not fj:
+            continue
+        callees = {i.get("callee") for b in fj["blocks"] for i in b["insts"] if i["op"] in ("call", "invoke")}
+        if any(x in ABORTS for x in callees if x):
+            continue
+        if THROW in callees or any((x or "").startswith(("_ZSt", "_ZNSt")) and "__throw_" in (x or "") for x in callees):
+            c.helper = c.name
+            c.name = THROW
+    return s
 MAGIC_HEADER = 0xC04F1EAB
 MAGIC_FOOTER = 0xC04F1E70
 FOOTER_DELTA = 0x20000000
@@ -242,13 +261,51 @@ def wr_atoms(t):
     return {a for a in ir.atoms(t) if a[0] == 'wr'}
 
 
-def eq_literal(lits, wr_call, const):
+def bit_constraints(lit):
+    """{(read call, bit index within that read): 0|1} required by an equality literal `expr == constant`, for every bit of
+    expr that is a bit of a read atom (D-bits provenance through trunc/lshr/and/zext); {} if the literal is not of that kind"""
+    if lit[0] != 'cmp' or lit[1] != 'eq':
+        return {}
+    for x, y in ((lit[2], lit[3]), (lit[3], lit[2])):
+        if y[0] != 'ci':
+            continue
+        w = y[2]
+        aw = {a: a[4] * 8 for a in ir.atoms(x) if a[0] == 'wr' and a[3] is not None}
+        if not aw or w > 64:
+            continue
+        bits = ir.to_bits(x, w, aw)
+        out = {}
+        for j, b in enumerate(bits):
+            want = (y[1] >> j) & 1
+            if isinstance(b, tuple) and b[0] == 'in' and b[1][0] == 'wr':
+                out[(b[1][1], 8 * b[1][3] + b[2])] = want
+            elif b in (0, 1):
+                if b != want:
+                    return {}          # unsatisfiable literal: constrains nothing usefully
+            else:
+                return {}              # an unknown bit takes part: no exact statement about the read's bits
+        return out
+    return {}
+
+
+def eq_literal(lits, wr_call, const, rel=0, size=4):
+    """the literals among lits that together require bytes [rel, rel+size) of read wr_call to equal const (little endian),
+    or None.  A comparison may cover more than the word (two adjacent words read as one struct and compared together) or
+    less (compared half by half)."""
+    need = {(wr_call, 8 * rel + j): (const >> j) & 1 for j in range(8 * size)}
+    used = []
     for l in lits:
-        if l[0] == 'cmp' and l[1] == 'eq':
-            for x, y in ((l[2], l[3]), (l[3], l[2])):
-                if x[0] == 'wr' and x[1] == wr_call and x[3] == 0 and y[0] == 'ci' and y[1] == const:
-                    return True
-    return False
+        c = bit_constraints(l)
+        hit = {k: v for k, v in c.items() if k in need}
+        if hit:
+            if any(need[k] != v for k, v in hit.items()):
+                return None
+            for k in hit:
+                need[k] = None
+            used.append(l)
+    if any(v is not None for v in need.values()):
+        return None
+    return used
 
 
 def canon(items):
@@ -315,7 +372,7 @@ class Grammar:
         if not self.ok:
             return
         self.sw = ir.Sym(hw.func, epochs=True)
-        self.sr = ir.Sym(hr.func, epochs=True)
+        self.sr = normalise_throws(ir.Sym(hr.func, epochs=True), hr.module)
         self.W = writer_items(self.sw, hw.module, hw.meta["stream"])
         self.R = reader_items(self.sr)
         self.Wc = canon(self.W)
@@ -337,7 +394,7 @@ def build_pairs(specs, tag, ndebug=True):
     """specs: [(layer, N, S, field)] -> [Grammar]"""
     hws = [h_writer(l, N, S, f) for (l, N, S, f) in specs]
     hrs = [h_reader(l, N, S, f) for (l, N, S, f) in specs]
-    harness.build(hws + hrs, "io_" + tag, per_tu=6, ndebug=ndebug)
+    harness.build(hws + hrs, "io_" + tag, per_tu=6, ndebug=ndebug, callees=True)
     return [Grammar(a, b) for a, b in zip(hws, hrs)]
 
 
@@ -385,6 +442,8 @@ def unjustified_throws(s, stream_arg=0):
             failing = (core[1] == 'eq') != pos
             if failing and ((a[0] == 'wr' and b[0] == 'ci') or (b[0] == 'wr' and a[0] == 'ci')):
                 return "const"
+            if failing and bit_constraints(('cmp', 'eq', a, b)):
+                return "const"          # some bytes of a read (part of a wider read, masked or shifted) differ from a constant
             if (a[0] == 'wr' or b[0] == 'wr' or any(x[0] == 'wr' for x in ir.atoms(core))):
                 return "data"
         if core[0] == 'cmp':
@@ -425,5 +484,5 @@ def h_real_reader(layer, N, T, M):
 
 def real_readers(tier):
     hs = [h_real_reader("strided", 3, "float", 3), h_real_reader("morton", 2, "float", 3), h_real_reader("morton", 3, "double", 2), h_real_reader("hilbert", 2, "float", 2), h_real_reader("stack", 3, "float", 3)]
-    harness.build(hs, "io_real", per_tu=2)
+    harness.build(hs, "io_real", per_tu=2, callees=True)
     return hs
